@@ -32,7 +32,8 @@ ASSUMPTIONS = [
 ]
 
 KNOWN = ["value", "demand", "supply", "utilisation", "allocation"]
-UNKNOWN = ["dummy_field", "Value", "demand_", "name", "level", "pool", "consumptions", "message", "targets", "x"]
+UNKNOWN = ["dummy_field", "Value", "demand_", "name", "level", "pool", "consumptions", "message", "targets", "x",
+           "target.demand", "new-demand", "old demand", "pool:supply", "", "value ", "1", "demand,supply"]
 _counter = itertools.count()
 
 
